@@ -34,6 +34,7 @@ type Config struct {
 	Concrete       map[string]string // concolic mode: nondet name -> value
 	LogDir         string
 	StopAtFirstViolation bool
+	Witnesses      int // collect up to this many per-path witness inputs (translator validation)
 	IsKnown func(v Violation) bool
 }
 
@@ -57,6 +58,7 @@ type Engine struct {
 	apiFuncs   map[*ssa.Function]string
 	mu         sync.Mutex
 	InitSec    float64
+	pathsSeen, witnessTaken int
 	InitIncomplete []string
 }
 
@@ -94,6 +96,15 @@ type PathResult struct {
 	Recovered []string
 	Sat, Unsat, Unknown int
 	SolverSecs float64
+	Witness   *Witness
+}
+
+// Witness is a concrete input (solver model) that drives execution down one explored path,
+// together with what the symbolic run says must be observed there.
+type Witness struct {
+	Model  map[string]string `json:"model"`
+	Covers []string          `json:"covers"`
+	Obs    map[string]string `json:"observations"`
 }
 
 type Path struct {
@@ -127,6 +138,7 @@ type Path struct {
 	mutexes map[*Obj]int
 	assumes []string
 	ndNames map[string]int
+	obsTerms []obsTerm
 	knownTrue map[string]bool
 	inInit  bool
 	lastPanic string
@@ -513,6 +525,26 @@ func (e *Engine) RunInit() (err error) {
 	return nil
 }
 
+func (e *Engine) takeWitnessSlot() bool {
+	e.mu.Lock()
+	defer e.mu.Unlock()
+	e.pathsSeen++
+	// spread the samples over the exploration: take the first few, then every k-th
+	if e.witnessTaken >= e.Cfg.Witnesses {
+		return false
+	}
+	if e.pathsSeen <= 3 || e.pathsSeen%e.witnessStride() == 0 {
+		e.witnessTaken++
+		return true
+	}
+	return false
+}
+
+func (e *Engine) witnessStride() int {
+	k := 1 + e.pathsSeen/(2*e.Cfg.Witnesses)
+	return k
+}
+
 func describePanic(r interface{}) string {
 	switch x := r.(type) {
 	case goPanic:
@@ -596,6 +628,35 @@ func (e *Engine) RunPath(s *Solver, h *ssa.Function, prefix []int) (res *PathRes
 			}
 		}()
 		p.callSSA(nil, h, nil, nil)
+		if e.Cfg.Witnesses > 0 && s != nil && len(res.Violations) == 0 && res.Status == "ok" && e.takeWitnessSlot() {
+			// prefer a non-degenerate witness: numeric inputs away from 0 and pairwise different
+			s.Send("(push 1)")
+			var prev *Term
+			for _, nd := range p.nondets {
+				for _, t := range nd.Terms {
+					if t.c || t.S.K == KBool || t.S.K == KFP {
+						continue
+					}
+					s.Send("(assert (not (= " + t.s + " " + zeroTerm(t.S).s + ")))")
+					if prev != nil && prev.S == t.S {
+						s.Send("(assert (not (= " + t.s + " " + prev.s + ")))")
+					}
+					prev = t
+				}
+			}
+			r := s.Check()
+			if r != Sat {
+				s.Send("(pop 1)")
+				r = s.Check()
+				s.NSat-- // bookkeeping only
+				if r == Sat {
+					res.Witness = &Witness{Model: p.model(), Covers: keys(p.covers), Obs: p.resolveObs()}
+				}
+			} else {
+				res.Witness = &Witness{Model: p.model(), Covers: keys(p.covers), Obs: p.resolveObs()}
+				s.Send("(pop 1)")
+			}
+		}
 	}()
 	res.Decisions = p.decisions
 	res.Covers = p.covers
@@ -637,6 +698,7 @@ type ObligationResult struct {
 	Steps     int64
 	Forks     int
 	InconclusiveReasons map[string]int
+	Witnesses []*Witness
 	Truncated bool
 	SamplePaths []string
 }
@@ -747,6 +809,9 @@ func (e *Engine) Explore(id string, h *ssa.Function) *ObligationResult {
 					R.Assumes[a] = true
 				}
 				R.Violations = append(R.Violations, res.Violations...)
+				if res.Witness != nil {
+					R.Witnesses = append(R.Witnesses, res.Witness)
+				}
 				R.AssertsChecked += res.AssertsChecked
 				R.AssertsDischarged += res.AssertsDischarged
 				R.AssertsConst += res.AssertsConst
